@@ -29,6 +29,11 @@ def b(x): return "true" if x else "false"
 def xc(n): return XC.get(n, "(XOther 99)")
 
 
+def c_on(x): return "None" if x is None else f"(Some {int(x)})"
+def c_ob(x): return "None" if x is None else f"(Some {b(x)})"
+def c_idet(i): return "(" + ", ".join(c_on(x) for x in i[:3]) + ")"
+
+
 def c_payload(p):
     if p[0] == "val": return f"(PVal {int(p[1])} {b(p[2])} {b(p[3])})"
     if p[0] == "none": return "PNone"
@@ -56,7 +61,7 @@ def c_op(o):
         return (f"ORegister {o[1]} {{| r_details := {b(o[2])}; r_coro := {b(o[3])}; r_check := {b(check)}; "
                 f"r_sig := {SIG[sig]} |}}")
     if k == "unreg": return f"OUnregister {o[1]}"
-    if k == "inv": return f"OInvocation {o[1]} {o[2]} {c_payload(o[3])} {o[4]} {b(o[5])} {c_beh(o[6])}"
+    if k == "inv": return f"OInvocation {o[1]} {o[2]} {c_payload(o[3])} {c_idet(o[4])} {c_ob(o[5])} {c_beh(o[6])}"
     if k == "int": return f"OInterrupt {o[1]}"
     if k == "res": return f"OResolve {o[1]} {c_result(o[2])}"
     if k == "prog": return f"OProgress {o[1]} {c_payload(o[2])}"
@@ -72,9 +77,9 @@ def c_uri(u):
 
 def c_out(e):
     k = e[0]
-    if k == "acc": return f"OAccepted {e[1]} {e[2]} {e[3]} {c_payload(e[4])} {e[5]} {b(e[6])} {b(e[7])}"
+    if k == "acc": return f"OAccepted {e[1]} {e[2]} {e[3]} {c_payload(e[4])} {c_idet(e[5])} {c_ob(e[6])} {b(e[7])}"
     if k == "called":
-        det = "None" if e[5] is None else f"(Some ({int(e[5][0])}, {b(e[5][1])}))"
+        det = "None" if e[5] is None else f"(Some (({c_on(e[5][0][0])}, {c_on(e[5][0][1])}, {int(e[5][0][2])}), {b(e[5][1])}))"
         return f"OCalled {e[1]} {e[2]} {e[3]} {c_payload(e[4])} {det}"
     if k == "sent":
         m = e[1]
@@ -137,6 +142,17 @@ def g_reg(rng, reg, p_details=0.65, p_coro=0.3):
     sig = "ok" if r < 0.84 else ("short" if r < 0.91 else "ill")
     kind = rng.choice(KINDS if sig != "ill" else [k for k in KINDS if k != "both"])
     return ["reg", reg, rng.random() < p_details, rng.random() < p_coro and not check, check, sig, kind]
+
+
+def g_rp(rng):
+    """receive_progress in INVOCATION.Details: absent / explicitly false / true"""
+    return rng.choice([None, None, False, False, True, True, True, True])
+
+
+def g_idet(rng):
+    """caller, caller_authid (0 = empty string), procedure, timeout: each absent or present (falsy values included)"""
+    return [rng.choice([None, rng.randint(1, 9)]), rng.choice([None, None, 0, rng.randint(1, 9)]),
+            rng.choice([None, None, 900 + rng.randint(0, 9)]), rng.choice([None, None, 0, 30000])]
 
 
 def g_payload(rng, pool, allow_empty=True):
@@ -203,7 +219,7 @@ def gen_fake(rng, fw, nops):
             reg = rng.choice(regs) if g < 0.93 else 555
             argid += 1
             bh = g_beh(rng, pool)
-            ops.append(["inv", req, reg, ["val", argid, False, False], rng.randint(1, 9), rng.random() < 0.55, bh])
+            ops.append(["inv", req, reg, ["val", argid, False, False], g_idet(rng), g_rp(rng), bh])
             reqs.append(req)
             if reg != 555:
                 if bh["fin"][0] == "pend": pend_guess.append(ninv)
@@ -246,7 +262,7 @@ def gen_real(rng, fw, kind, role, ser, nops):
         if r < 0.5 or ninv == 0:
             req += 1; argid += 1
             bh = g_beh(rng, pool, p_pend=0.3)
-            ops.append(["inv", req, rng.choice([100, 100, 101]), ["val", argid, False, False], rng.randint(1, 9), rng.random() < 0.6, bh])
+            ops.append(["inv", req, rng.choice([100, 100, 101]), ["val", argid, False, False], g_idet(rng), g_rp(rng), bh])
             if bh["fin"][0] == "pend": pend.append((ninv, req))
             ninv += 1
         elif r < 0.7 and pend:
